@@ -247,16 +247,16 @@ func main() {
 
 func boundsText(thorough bool) map[string]any {
 	return map[string]any{
-		"jar":  "shapes: members 1..3 x (stored|deflated) x size {0,1,8192} (258) + name family (manifest line lengths 64..76 ASCII, 150, 230; 2/3/4-byte UTF-8 sequence at every byte offset 64..78 of the Name line; 60 three-byte characters; blanks and colon; META-INF/services member). + 7 input-manifest spellings (LF, CR, no final blank line, minimal, existing sections, folded main attribute). quick: all shapes x {rsaA,p256A} x sha256 x 4 flag sets  U  3 canonical shapes x keys{rsaA,p256A,p384} x digests{sha1,sha256,sha384,sha512} x {inline-signature} x {sections-only} (+openssl cms; jarsigner CLI on 2 canonical shapes x keys x sha256 x 4 flag sets; RFC 3161 on 1 canonical shape x {rsaA,p256A} x {default, inline-signature}). thorough: all shapes x keys+p521 x {sha256,sha1,sha384,sha512} x 4 flag sets  U  canonical x keys+p521 x digests+sha224 x 4 flag sets (CLI also with sha1, sha512; RFC 3161 for every key)",
-		"apk":  "shapes: 7 small (one with ZIP64 end records no field needs; AndroidManifest.xml + META-INF/MANIFEST.MF + stored/deflated/empty members; one without a JAR manifest) + section-1 length exactly {1MiB-1, 1MiB, 1MiB+1, 2MiB-1, 2MiB, 2MiB+1, 2MiB+4097} (v2-only packages hit these exactly; v1+v2 packages are near them, the class reached is tallied) x {v2-only, v1+v2} x keys x {sha256,sha512}; sha1 and sha384 on one shape (expected refusals)",
-		"pe":   "shapes: {PE32,PE32+} x sections 1..3 x raw size {512,4096,4608} x overlay {0,1,7,8,9} x input CheckSum field {zero, correct for the unsigned image} (780) + e_lfanew family {64,68,72,248,512,4008,4006, CheckSum field at 32768-8..32768+4 and 65536-8..65536+4} x {PE32,PE32+} x overlay {0,1} x input CheckSum {zero, correct} (264) + 2 .NET fixtures. quick: all shapes x rsaA x sha256 x {page-hashes off,on} (+p256A on every one-section shape, which includes the e_lfanew family)  U  4 canonical shapes x keys x digests{sha1,sha256,sha384,sha512} x page-hashes (+openssl dgst)  U  canonical x {already signed by rsaB, generator-written certificate table holding a foreign PKCS#7}  U  RFC 3161 on 1 shape x {rsaA,p256A}. thorough: all shapes x {rsaA,p256A,p384} x {sha256,sha1,sha384,sha512} x page-hashes (sha384/sha512 with page hashes are refused by relic and tallied)",
-		"ps":   "texts: {CRLF,LF,CR-only} x {final newline, none}, one line, blank lines (+3 non-ASCII texts for BOM encodings, one whose UTF-16 code units contain a 0x0A byte) x encoding {ASCII, UTF-8 BOM, UTF-16LE BOM} x style {.ps1,.ps1xml,.mof} (90) x keys x digests{sha1,sha256,sha384,sha512}",
-		"cab":  "dummy.cab + generated single-folder uncompressed cabinets with file sizes {[1],[100],[40000],[1,100],[32768,1]} x keys x digests{sha1,sha256,sha384,sha512}",
-		"msi":  "dummy.msi + cfbgen families names, storage, nested-signame, layout, sizes(quick: <=2 streams; thorough: <=3 + dircount + fatfull). quick: all shapes x rsaA x sha256 x {extended, no-extended-sig}  U  dummy.msi x keys x digests x both. thorough: all shapes x {rsaA,p256A,p384} x {sha256,sha1,sha384,sha512} x both",
-		"xml":  "appmanifest fixture x keys x digests{sha1,sha256,sha384,sha512} (+RFC 3161 x {rsaA,p256A}); VSIX fixture x keys x digests(+sha224 thorough) x {detach-certs}",
-		"pgp":  "16 texts (final newline or not; five sizes around the packet-length encoding boundaries, trailing blanks, dash lines, CRLF, mixed endings, empty, newline only, trailing blank lines, UTF-8, 5000-char line) x all 16 subsets of {armor,inline,clearsign,textmode} x keys {rsaA (+rsaB thorough)} x digests {sha256,sha512 (+sha1,sha224,sha384 thorough)}; p256A on 2 cases (expected refusal). deb: fixture + 2 generated packages x role {builder,origin,maint,archive} x digests {sha256,sha512} (+ a second role added on top); rpm: rocky fixture x {rsaA,rsaB} x {sha1,sha256,sha512}",
+		"jar":   "shapes: members 1..3 x (stored|deflated) x size {0,1,8192} (258) + name family (manifest line lengths 64..76 ASCII, 150, 230; 2/3/4-byte UTF-8 sequence at every byte offset 64..78 of the Name line; 60 three-byte characters; blanks and colon; META-INF/services member). + 7 input-manifest spellings (LF, CR, no final blank line, minimal, existing sections, folded main attribute). quick: all shapes x {rsaA,p256A} x sha256 x 4 flag sets  U  3 canonical shapes x keys{rsaA,p256A,p384} x digests{sha1,sha256,sha384,sha512} x {inline-signature} x {sections-only} (+openssl cms; jarsigner CLI on 2 canonical shapes x keys x sha256 x 4 flag sets; RFC 3161 on 1 canonical shape x {rsaA,p256A} x {default, inline-signature}). thorough: all shapes x keys+p521 x {sha256,sha1,sha384,sha512} x 4 flag sets  U  canonical x keys+p521 x digests+sha224 x 4 flag sets (CLI also with sha1, sha512; RFC 3161 for every key)",
+		"apk":   "shapes: 7 small (one with ZIP64 end records no field needs; AndroidManifest.xml + META-INF/MANIFEST.MF + stored/deflated/empty members; one without a JAR manifest) + section-1 length exactly {1MiB-1, 1MiB, 1MiB+1, 2MiB-1, 2MiB, 2MiB+1, 2MiB+4097} (v2-only packages hit these exactly; v1+v2 packages are near them, the class reached is tallied) x {v2-only, v1+v2} x keys x {sha256,sha512}; sha1 and sha384 on one shape (expected refusals)",
+		"pe":    "shapes: {PE32,PE32+} x sections 1..3 x raw size {512,4096,4608} x overlay {0,1,7,8,9} x input CheckSum field {zero, correct for the unsigned image} (780) + e_lfanew family {64,68,72,248,512,4008,4006, CheckSum field at 32768-8..32768+4 and 65536-8..65536+4} x {PE32,PE32+} x overlay {0,1} x input CheckSum {zero, correct} (264) + 2 .NET fixtures. quick: all shapes x rsaA x sha256 x {page-hashes off,on} (+p256A on every one-section shape, which includes the e_lfanew family)  U  4 canonical shapes x keys x digests{sha1,sha256,sha384,sha512} x page-hashes (+openssl dgst)  U  canonical x {already signed by rsaB, generator-written certificate table holding a foreign PKCS#7}  U  RFC 3161 on 1 shape x {rsaA,p256A}. thorough: all shapes x {rsaA,p256A,p384} x {sha256,sha1,sha384,sha512} x page-hashes (sha384/sha512 with page hashes are refused by relic and tallied)",
+		"ps":    "texts: {CRLF,LF,CR-only} x {final newline, none}, one line, blank lines (+3 non-ASCII texts for BOM encodings, one whose UTF-16 code units contain a 0x0A byte) x encoding {ASCII, UTF-8 BOM, UTF-16LE BOM} x style {.ps1,.ps1xml,.mof} (90) x keys x digests{sha1,sha256,sha384,sha512}",
+		"cab":   "dummy.cab + generated single-folder uncompressed cabinets with file sizes {[1],[100],[40000],[1,100],[32768,1]} x keys x digests{sha1,sha256,sha384,sha512}",
+		"msi":   "dummy.msi + cfbgen families names, storage, nested-signame, layout, sizes(quick: <=2 streams; thorough: <=3 + dircount + fatfull). quick: all shapes x rsaA x sha256 x {extended, no-extended-sig}  U  dummy.msi x keys x digests x both. thorough: all shapes x {rsaA,p256A,p384} x {sha256,sha1,sha384,sha512} x both",
+		"xml":   "appmanifest fixture x keys x digests{sha1,sha256,sha384,sha512} (+RFC 3161 x {rsaA,p256A}); VSIX fixture x keys x digests(+sha224 thorough) x {detach-certs}",
+		"pgp":   "16 texts (final newline or not; five sizes around the packet-length encoding boundaries, trailing blanks, dash lines, CRLF, mixed endings, empty, newline only, trailing blank lines, UTF-8, 5000-char line) x all 16 subsets of {armor,inline,clearsign,textmode} x keys {rsaA (+rsaB thorough)} x digests {sha256,sha512 (+sha1,sha224,sha384 thorough)}; p256A on 2 cases (expected refusal). deb: fixture + 2 generated packages x role {builder,origin,maint,archive} x digests {sha256,sha512} (+ a second role added on top); rpm: rocky fixture x {rsaA,rsaB} x {sha1,sha256,sha512}",
 		"other": "cat (hyperv.cat), appx (App1), xap (dummy.xap) x keys x sha256 (+RFC 3161 on rsaA): CMS checks only",
-		"tier": map[bool]string{false: "quick", true: "thorough"}[thorough],
+		"tier":  map[bool]string{false: "quick", true: "thorough"}[thorough],
 	}
 }
 
